@@ -4,7 +4,6 @@ From Coq Require Import List ZArith NArith Bool Lia.
 From YK Require Import Base.Int64 Base.Res Preempt.Snapshot Preempt.Victims Preempt.ReqNode Preempt.Quota Preempt.Spec Preempt.TreeLemmas.
 Import ListNotations.
 Open Scope Z_scope.
-Set Default Timeout 30.
 
 (* a path of parent/child steps from q down to lq *)
 Inductive descent (w : world) : queue -> list queue -> queue -> Prop :=
